@@ -18,9 +18,11 @@ ENTRYF = ("rules.shared_options", "entry_fields_rules", "facts")
 RREF = ("rules.shared_refusals", "read_refusals", "ctx")
 WREF = ("rules.shared_refusals", "write_refusals", "ctx")
 XWALK = ("rules.shared_extrawalk", "extrawalk_rules", "facts")
+LENF = ("rules.shared_lenfield", "lenfield_rules", "ctx")
 
 FOREIGN = {
     "C01": [  # write -> read round trip
+        (LENF, "entries behind a ZIP64-sized one are read back: the central header announces exactly the extra bytes it emits"),
         (("rules.C12", "misuse_rules", "facts"), "every opener accepts every documented option combination: levels are validated in one place, for the method actually used"),
         (WREF, "the writer turns away no call sequence it used to accept"),
         (RREF, "... and the reader no archive it used to accept: what was written is read back"),
@@ -56,10 +58,13 @@ FOREIGN = {
         (("rules.C10", "stack_rules", "facts"), "the streaming reader builds the same CRC-checked decoder stack"),
     ],
     "C07": [
+        (("rules.C01", "mode_rules", "ctx"), "the mode an extractor applies is the recorded one: unix_mode() of a Unix-made entry is attrs >> 16, untouched by DOS attribute bits"),
         (("rules.C03", "acc_rules", "facts"), "unix_mode() reports the recorded mode"),
         (("rules.C03", "dosmode_rules", "facts"), "permission bits derived from DOS attributes"),
     ],
     "C08": [
+        (LENF, "an entry that needs a central ZIP64 record is followed by records that are still found: the announced extra length covers the record"),
+        (("rules.C13", "sameparser_rules", "facts"), "an archive with more than 65535 entries is re-read in full when opened for append: the count comes from the ZIP64-aware directory parser"),
         (XWALK, "the ZIP64 record is found wherever it stands among the extra records (every layout the specification allows)"),
         (("rules.C01", "patch_rules", "facts"), "the 4 GiB refusal of a non-large entry keeps failing on every later close (the size recomputation is checked, not saturated)"),
         (("rules.C03", "sentinel_rules", "facts"), "foreign ZIP64 archives that mask the classic disk numbers are accepted"),
@@ -70,6 +75,8 @@ FOREIGN = {
         (("rules.C02", "narrow_rules", "ctx"), "no value is truncated into a 16/32-bit field"),
     ],
     "C10": [
+        (("rules.C03", "acc_rules", "facts"), "the stream metadata accessors report the same fields as the seekable ones (name_raw is the stored bytes)"),
+        (("rules.C19", "table_rules", "facts"), "both readers decode unflagged names through the one CP437 table, for every byte"),
         (XWALK, "both readers walk the local/central extra field on record boundaries"),
         (("rules.C03", "flagbits_rules", "facts"), "both parsers read the same flag bits"),
         (RREF, "both readers refuse the same inputs: no refusal is added to one of them"),
@@ -77,6 +84,8 @@ FOREIGN = {
         (("rules.C04", "table_rules", "facts"), "contents are CRC-checked the same way"),
     ],
     "C13": [
+        (LENF, "re-written central records of old entries announce exactly the extra bytes emitted"),
+        (("rules.shared_count", "count_rule", "facts"), "new entries written through a short-writing stream are accounted by the accepted bytes"),
         (XWALK, "the old entries' ZIP64 / AE-x records are re-read on record boundaries when an archive is opened for append"),
         (("rules.C19", "flag_decode_rules", "facts"), "old names are re-read by the flagged encoding only (an append does not rename entries)"),
         (("rules.C03", "central_rules", "ctx"), "old entries are located through their own local headers (names re-encoded on re-emission do not shift them)"),
@@ -93,6 +102,7 @@ FOREIGN = {
         (("rules.C02", "flag_rules", "ctx"), "re-emitted names keep the flag that matches their bytes"),
     ],
     "C14": [
+        (("rules.C01", "patchoff_rules", "ctx"), "the local ZIP64 record of a copied large entry carries the sizes (written, or back-patched at the offset the writer computed)"),
         (("rules.C03", "central_rules", "ctx"), "the raw window handed to the copy is the entry's whole compressed stream (central size), for empty entries too"),
         (WREF, "any entry that can be opened raw can be copied: the copy path adds no refusal (method, timestamp, size ...)"),
         (ENTRYF, "the copy's record holds the options raw_copy derived from the source (start_entry is shared)"),
@@ -100,6 +110,7 @@ FOREIGN = {
         (("rules.C18", "bits_rules", "facts"), "the copied timestamp re-packs to the same words"),
     ],
     "C15": [
+        (("rules.C03", "central_rules", "ctx"), "an encrypted entry is located from its local header on every open: opening it twice (or from a clone) finds the same 12-byte header"),
         (("rules.C04", "args_rules", "facts"), "the CRC exemption is the AE-2 predicate only: a wrong password that passes the check byte still fails the CRC"),
         (("rules.C03", "flagbits_rules", "facts"), "the encrypted flag and the data-descriptor flag (which selects the ZipCrypto check byte) are bits 0 and 3"),
         (TS, "an entry opened with keys gets the encrypting sink, and only that entry, for every call sequence"),
@@ -125,6 +136,7 @@ FOREIGN = {
         (("rules.C13", "raw_rules", "facts"), "append re-writes parsed entries untouched"),
     ],
     "C16": [
+        (("rules.C01", "method_rules", "ctx"), "the decoder behind the AES reader is the plain constructor: nothing changes how much ciphertext is pulled before end-of-data is reported"),
         (XWALK, "the AE-x record is found wherever it stands among the extra records"),
         (("rules.shared_zip64", "pair_rules", "ctx"), "AES entries with ZIP64 sizes: the two 64-bit values are consumed in APPNOTE order"),
         (("rules.C03", "flagbits_rules", "facts"), "the encrypted flag is bit 0"),
@@ -150,6 +162,7 @@ FOREIGN = {
         (("rules.shared_count", "exact_rule", "facts"), "name and comment bytes are read with exact-length primitives (a bare read() truncates them on a short read)"),
     ],
     "C11": [
+        (("rules.C03", "central_rules", "ctx"), "a read failure while locating an entry stays an I/O error (it is not reclassified as a malformed archive that a caller may skip)"),
         (("rules.C15", "write_rules", "ctx"), "a failed flush of an encrypted entry leaves no half-finished encrypting writer behind (finish consumes it)"),
     ],
     "C05": [
